@@ -44,7 +44,14 @@ Specials == {
   Arr(<<>>, <<R("type", IdV("any"))>>), Lit(NumD(N1_5), <<R("max", NV(<<50, 46, 53, 48>>)), R("min", NV(<<45, 48, 46, 48>>))>>),
   Lit(NumD(N7), <<R("const", BV(FALSE))>>), Lit(NumD(N7), <<R("const", BV(TRUE)), R("nullable", BV(FALSE))>>)
 }
-Domain == Specials \cup Schemas
+\* Level 2: every scalar schema also inside containers (property, array item, nested, next to siblings with notes)
+Wrap(c, x) ==
+  CASE c = 1 -> Obj(<<P(Ka, x)>>, <<>>)
+    [] c = 2 -> Arr(<<One, x>>, <<>>)
+    [] c = 3 -> Obj(<<P(Kb, Note(Lit(StrD(Sa), <<>>), "sibling")), P(Ka, Obj(<<P(Kc, x)>>, <<>>))>>, <<>>)
+    [] c = 4 -> Arr(<<Obj(<<P(Ka, x), P(Kb, One)>>, <<R("additionalProperties", BV(TRUE))>>)>>, <<R("minItems", NV(N0))>>)
+    [] c = 5 -> Obj(<<P(Ka, Note(x, "a note on the value")), P(Kb, Arr(<<x>>, <<>>))>>, <<>>)
+Domain == Specials \cup Schemas \cup (IF Level = 2 THEN {Wrap(c, x) : c \in 1..5, x \in Schemas} ELSE {})
 VARIABLE sch
 Init == sch \in Domain
 Next == UNCHANGED sch
